@@ -108,7 +108,6 @@ def writer_interp(bb: str):
     return interp
 
 
-@shape_of("struct_rw")
 def flush_rule(repo: Repo, rep: Report, rid: str) -> None:
     rep.rule(rid, "a pending bit-field unit is flushed before anything else is emitted: the flush guard dominates every in-loop emit site and is "
                   "true whenever a unit is pending and the current field is not a bit-field; the tail padding is preceded by a flush; "
